@@ -358,6 +358,51 @@ fn check_pool(pw: &PoolWorld, cx: &mut Cx, cases: &mut Vec<Value>) {
             cx.check("disabled.every_entry_path_rejected", r.is_err(), || format!("{} pool (liquidity {}) switches {:?} set in a combined update: {} succeeded although its operation is disabled", pw.kind, pw.liquidity, t, p));
         }
     }
+    // code upgrade through the factory: a pair whose storage has the v1.1.0 layout (config without burn fee, cw2
+    // version 1.1.0), resp. a three-asset pool stored under an older version, must keep its switches
+    for t in toggles_all() {
+        w.restore(&pw.snap);
+        set_pool_toggles(&mut w, pw, t).expect("toggle update");
+        let r = if let Some(tr) = &pw.trio {
+            w.raw_set(&tr.addr, b"contract_info", br#"{"contract":"white_whale-stableswap-3pool","version":"1.0.0"}"#);
+            w.exec(OWNER, &pw.hub.factory, &white_whale_std::pool_network::factory::ExecuteMsg::MigrateTrio { contract: tr.addr.clone(), code_id: Some(w.codes.trio) }, &[])
+        } else {
+            let p1 = pw.p1.as_ref().unwrap();
+            let c: white_whale_std::pool_network::pair::Config = w.query(&p1.addr, &white_whale_std::pool_network::pair::QueryMsg::Config {}).unwrap();
+            let old_cfg = json!({"owner": c.owner, "fee_collector_addr": c.fee_collector_addr, "pool_fees": {"protocol_fee": c.pool_fees.protocol_fee, "swap_fee": c.pool_fees.swap_fee}, "feature_toggle": c.feature_toggle});
+            w.raw_set(&p1.addr, b"config", serde_json::to_vec(&old_cfg).unwrap().as_slice());
+            w.raw_set(&p1.addr, b"contract_info", br#"{"contract":"white_whale-pool","version":"1.1.0"}"#);
+            w.exec(OWNER, &pw.hub.factory, &white_whale_std::pool_network::factory::ExecuteMsg::MigratePair { contract: p1.addr.clone(), code_id: Some(w.codes.pair) }, &[])
+        };
+        cx.count("case:migration");
+        cases.push(json!({"pool": pw.kind, "liquidity": pw.liquidity, "toggles(w,d,s)": [t.0, t.1, t.2], "path": "migrate from an older storage version", "ok": r.is_ok()}));
+        cx.check("migration.accepted", r.is_ok(), || format!("migrating an older {} pool failed: {:?}", pw.kind, r.as_ref().err().map(|e| e.msg().to_string())));
+        if r.is_ok() {
+            cx.count("case:migration_ok");
+            let stored = if let Some(tr) = &pw.trio {
+                let c: white_whale_std::pool_network::trio::Config = w.query(&tr.addr, &white_whale_std::pool_network::trio::QueryMsg::Config {}).unwrap();
+                (c.feature_toggle.withdrawals_enabled, c.feature_toggle.deposits_enabled, c.feature_toggle.swaps_enabled)
+            } else {
+                let c: white_whale_std::pool_network::pair::Config = w.query(&pw.p1.as_ref().unwrap().addr, &white_whale_std::pool_network::pair::QueryMsg::Config {}).unwrap();
+                (c.feature_toggle.withdrawals_enabled, c.feature_toggle.deposits_enabled, c.feature_toggle.swaps_enabled)
+            };
+            cx.check("migration.keeps_the_switches", stored == t, || format!("{} pool switches {:?} (withdraw, deposit, swap) became {:?} by migrating", pw.kind, t, stored));
+            let migrated = w.snapshot();
+            for (p, op) in paths.iter() {
+                let enabled = match op {
+                    Op::Withdraw => t.0,
+                    Op::Deposit => t.1,
+                    Op::Swap => t.2,
+                };
+                if enabled {
+                    continue;
+                }
+                w.restore(&migrated);
+                let r = exec_pool_path(&mut w, pw, p);
+                cx.check("disabled.every_entry_path_rejected", r.is_err(), || format!("{} pool switches {:?} after migration: {} succeeded although its operation is disabled", pw.kind, t, p));
+            }
+        }
+    }
     // disable everything, then re-enable: configuration and behaviour are restored
     w.restore(&pw.snap);
     let cfg0 = w.dump(pw.trio.as_ref().map(|t| t.addr.as_str()).unwrap_or_else(|| pw.p1.as_ref().unwrap().addr.as_str()));
@@ -511,6 +556,37 @@ fn check_vault(cw20: bool, liquidity: bool, cx: &mut Cx, cases: &mut Vec<Value>)
             }
         }
     }
+    // code upgrade: a vault whose storage has the v1.1.3 layout (config without burn fee / lp_asset, cw2 version 1.1.3)
+    // is migrated to the current code through the factory; the switches must come out exactly as the operator left them
+    for t in toggles_all() {
+        w.restore(&base);
+        set_vault_toggles(&mut w, &h, t).expect("vault toggles");
+        let c: white_whale_std::vault_network::vault::Config = w.query(&h.vault, &white_whale_std::vault_network::vault::QueryMsg::Config {}).unwrap();
+        let old_cfg = json!({
+            "owner": c.owner, "asset_info": c.asset_info, "flash_loan_enabled": c.flash_loan_enabled, "deposit_enabled": c.deposit_enabled,
+            "withdraw_enabled": c.withdraw_enabled, "liquidity_token": h.lp, "fee_collector_addr": c.fee_collector_addr,
+            "fees": {"protocol_fee": c.fees.protocol_fee, "flash_loan_fee": c.fees.flash_loan_fee}
+        });
+        w.raw_set(&h.vault, b"config", serde_json::to_vec(&old_cfg).unwrap().as_slice());
+        w.raw_set(&h.vault, b"contract_info", br#"{"contract":"white_whale-vault","version":"1.1.3"}"#);
+        let r = w.exec(OWNER, &h.factory, &white_whale_std::vault_network::vault_factory::ExecuteMsg::MigrateVaults { vault_addr: Some(h.vault.clone()), vault_code_id: w.codes.vault }, &[]);
+        cx.count("case:migration");
+        cases.push(json!({"vault_cw20": cw20, "liquidity": liquidity, "toggles(loan,deposit,withdraw)": [t.0, t.1, t.2], "path": "migrate from the v1.1.3 storage layout", "ok": r.is_ok()}));
+        cx.check("migration.accepted", r.is_ok(), || format!("migrating a v1.1.3 vault failed: {:?}", r.as_ref().err().map(|e| e.msg().to_string())));
+        if r.is_ok() {
+            cx.count("case:migration_ok");
+            cx.check("migration.keeps_the_switches", read(&w) == t, || format!("vault switches {:?} (loan, deposit, withdraw) became {:?} by migrating from v1.1.3", t, read(&w)));
+            let migrated = w.snapshot();
+            for (p, ti) in paths.iter() {
+                if [t.0, t.1, t.2][*ti] {
+                    continue;
+                }
+                w.restore(&migrated);
+                let r = exec_vault_path(&mut w, &h, p);
+                cx.check("disabled.every_entry_path_rejected", r.is_err(), || format!("vault (cw20 {}) switches {:?} after migration: {} succeeded although disabled", cw20, t, p));
+            }
+        }
+    }
     w.restore(&base);
     let d0 = w.dump(&h.vault);
     set_vault_toggles(&mut w, &h, (false, false, false)).unwrap();
@@ -552,6 +628,8 @@ pub fn run(tier: &str, seed: u64) -> i32 {
     if ev.violations.is_empty() {
         ev.require_counter("case:disabled", 200);
         ev.require_counter("case:enabled_and_control_succeeds", 100);
+        ev.require_counter("case:migration_ok", 80);
+        ev.require_counter("case:combined_update", 48);
     }
     ev.finish()
 }
